@@ -192,6 +192,9 @@ pub fn x(r: &mut Ref, e: &X) -> String {
             if *name == "COUNT_DISTINCT" {
                 return format!("COUNT(DISTINCT ({}))", x(r, &args[0]));
             }
+            if *name == "ARRAY_AGG_DISTINCT" {
+                return format!("ARRAY_AGG(DISTINCT ({}))", x(r, &args[0]));
+            }
             let a: Vec<String> = args.iter().map(|i| x(r, i)).collect();
             format!("{}({})", func_name(r.d, name), a.join(", "))
         }
